@@ -911,13 +911,31 @@ Section cover.
     - left. by apply elem_of_list_filter.
   Qed.
 
+  (* any number of outputs: before the minimal-cover filter every gate in the cone of an output lies in a supergate *)
+  Theorem all_supergates_cover all : all_supergates L = Ok all →
+    ∀ n o, o ∈ outputs L → reach L n o → n ∉ inputs L → ∃ sg, sg ∈ all ∧ n ∈ gates (c_g sg).
+  Proof.
+    unfold all_supergates. destruct (has_bb L); [done|]. destruct (mapM _ _) as [pc|] eqn:Epc; [|done].
+    destruct (dedupe _ []) as [all'|] eqn:Ed; [|done]. intros [= <-] n o Ho Hreach Hni.
+    apply mapM_Some in Epc. pose proof Ho as Ho'. apply elem_of_elements, elem_of_list_lookup in Ho' as [k Hk].
+    destruct (Forall2_lookup_l _ _ _ _ _ Epc Hk) as (lc & Hlc & Ec).
+    assert (o ∈ dom L) as HoL. { apply elem_of_outputs in Ho as (i & Hi & _). by eapply elem_of_dom_2. }
+    unfold cone_supergates in Ec. case_bool_decide as Hcert; [|done]. destruct Hcert as (Hup & Hav & Hgrow & Hfront).
+    assert (n ∈ tfi_star L o) as Hn by (by apply (up_ok_reach L o n Hup)).
+    apply (inj Some) in Ec.
+    assert (∃ r S, (r, S) ∈ grow_all (Datatypes.S (size (cone L o))) (kids_of (cone L o) o (sdom_table (avoid_table (cone L o) o))) [o]
+                   ∧ n ∈ gates (c_g (mk_sg (cone L o) r S))) as (r & S & Hin & Hgate) by (eapply cone_cover; eauto).
+    exists (mk_sg (cone L o) r S). split; [|done]. destruct (dedupe_complete _ _ _ Ed) as [Hall _]. apply Hall.
+    apply elem_of_list_join. exists lc. split; [|by eapply elem_of_list_lookup_2]. rewrite <- Ec. apply elem_of_list_fmap. by exists (r, S).
+  Qed.
+
   (* every gate in the cone of the single output lies in a returned supergate *)
   Theorem supergates_cover_single o sgs : outputs L = {[o]} → supergates L = Ok sgs →
     ∀ n, reach L n o → n ∉ inputs L → ∃ sg, sg ∈ sgs ∧ n ∈ gates (c_g sg).
   Proof.
     intros Hout Hsg n Hreach Hni. unfold supergates in Hsg. destruct (minimal_supergates L) as [m| | |] eqn:Em; unfold rbind in Hsg; try done.
     destruct (kahn (S (length m)) L m []) as [lk|] eqn:Ek; [|done]. injection Hsg as <-.
-    unfold minimal_supergates in Em. destruct (has_bb L); [done|]. rewrite Hout, elements_singleton in Em. simpl in Em.
+    unfold minimal_supergates, all_supergates in Em. destruct (has_bb L); [done|]. unfold rbind in Em. rewrite Hout, elements_singleton in Em. simpl in Em.
     destruct (cone_supergates L o) as [lc|] eqn:Ec; simpl in Em; [|done].
     destruct (dedupe (lc ++ []) []) as [all|] eqn:Ed; [|done]. destruct (keyed (minimal_cover all)) as [m'|] eqn:Ekd; [|done].
     injection Em as <-.
